@@ -39,6 +39,11 @@ inline bool v_eq(const V &a, const V &b) {
       for (size_t k = 0; k < a.el.size(); k++) if (!v_eq(a.el[k], b.el[k])) return false;
       return true;
     }
+    case '-': {  // open-ended range marker: at = 'd' (start, delta) or 'c' (start)
+      if (a.at != b.at || a.el.size() != b.el.size()) return false;
+      for (size_t k = 0; k < a.el.size(); k++) if (!v_eq(a.el[k], b.el[k])) return false;
+      return true;
+    }
   }
   return false;
 }
@@ -65,6 +70,7 @@ inline std::string show(const V &v) {
     case 's': case 'S': return std::string(1, v.t) + ":\"" + vf::esc(v.s) + "\"";
     case 'b': return "b:" + vf::hexenc(v.s);
     case 'a': { std::string o = std::string("[") + v.at + ":"; for (auto &e : v.el) o += show(e) + " "; o += "|seg"; for (int s : v.seg) o += " " + std::to_string(s); return o + "]"; }
+    case '-': { std::string o = std::string("(open range ") + (v.at == 'd' ? "start,delta: " : "repeat: "); for (auto &e : v.el) o += show(e) + " "; return o + "...)"; }
     default: return std::string(1, v.t);
   }
 }
